@@ -3,6 +3,7 @@ INVARIANT TypeOK
 INVARIANT DerivBare
 INVARIANT DerivPars
 INVARIANT DerivInner
+INVARIANT DerivBlank
 INVARIANT DerivInvalid
 INVARIANT MLLaw
 CHECK_DEADLOCK FALSE
